@@ -174,12 +174,23 @@ def hesse_work(payload):
     vm = fcn.vm
     if lab.c.bound_dic:
         vm.set_bound(lab.c.bound_dic)
-        x = np.array(vm.get_all_val(True))
+        x0 = np.array(vm.get_all_val(True))
         n = len(names)
         Vx = np.eye(n) * 0.04 + 0.01
-        got = vm.trans_error_matrix(Vx, x)
-        dy = np.ones(n)
-        for i, nme in enumerate(names):
+        # the fit variable on its principal branch and on the mirrored branch (same parameter value, slope of the other sign)
+        for branch in ("principal", "mirrored"):
+          x = np.array(x0)
+          if branch == "mirrored":
+              for i, nme in enumerate(names):
+                  if nme in vm.bnd_dic:
+                      b = vm.bnd_dic[nme]
+                      if b.lower is not None and b.upper is not None:
+                          x[i] = math.pi - x[i]
+                      elif b.lower is not None or b.upper is not None:
+                          x[i] = -x[i] if abs(x[i]) > 1e-3 else -0.37
+          got = vm.trans_error_matrix(Vx, x)
+          dy = np.ones(n)
+          for i, nme in enumerate(names):
             if nme in vm.bnd_dic:
                 b = vm.bnd_dic[nme]
                 a_, b_ = b.lower, b.upper
@@ -192,10 +203,11 @@ def hesse_work(payload):
                 else:
                     f = lambda t: b_ + 1 - mp.sqrt(t * t + 1)
                 dy[i] = float(mp.diff(f, x[i]))
-        wantV = dy[:, None] * Vx * dy[None, :]
-        res.case(nontrivial_key=(scen, "trans_error_matrix"))
-        if np.abs(got - wantV).max() > 1e-10 * np.abs(wantV).max():
-            res.violation("hesse:trans_error_matrix", "%s: trans_error_matrix differs from y' V y'" % scen, case)
+          wantV = dy[:, None] * Vx * dy[None, :]
+          res.case(nontrivial_key=(scen, "trans_error_matrix", branch), outcome=("trans_error_matrix", branch, int(np.sum(dy < 0))))
+          if np.abs(got - wantV).max() > 1e-10 * np.abs(wantV).max():
+            i_, j_ = np.unravel_index(np.argmax(np.abs(got - wantV)), wantV.shape)
+            res.violation("hesse:trans_error_matrix", "%s (%s branch): trans_error_matrix[%s,%s] = %r, y' V y' = %r" % (scen, branch, names[i_], names[j_], float(got[i_, j_]), float(wantV[i_, j_])), case)
         vm.remove_bound()
     res.sample({"part": "hesse", "scenario": scen, "free": names}, limit=1)
     return res.done()
